@@ -2,18 +2,24 @@
 """merge_selftests.py: merge the part tables evidence/selftest-<kind>-<part>.txt
 (written by tools/selftest_one.sh, parts in alphabetical order, a later part
 overriding an earlier verdict for the same entry) into
-evidence/selftest-<kind>.txt. Not a registered command."""
+evidence/selftest-<kind>.txt; an existing merged table is kept as the base. Not a registered command."""
 import glob, os, re
 for kind in ("seeded", "sensitivity"):
     parts = sorted(glob.glob("/verif/evidence/selftest-%s-*.txt" % kind))
     if not parts:
         continue
+    base = "/verif/evidence/selftest-%s.txt" % kind
+    if os.path.exists(base):
+        parts = [base] + parts  # an earlier merged table is the starting point
     heads, rows, superseded = [], {}, []
     for p in parts:
         for line in open(p):
             line = line.rstrip("\n")
             if line.startswith("#"):
-                heads.append(line + "  [part %s]" % os.path.basename(p)[len("selftest-%s-" % kind):-4])
+                if p == base:
+                    heads.append(line)
+                else:
+                    heads.append(line + "  [part %s]" % os.path.basename(p)[len("selftest-%s-" % kind):-4])
                 continue
             m = re.match(r"^(\S+)\s+(C\d+)\s+(.*)$", line)
             if not m:
